@@ -1,40 +1,137 @@
-"""C07 Filtering never removes a value that takes part in a solution (PropMC, all 21 types)."""
+"""C07 A constraint is declared entailed only when it can no longer be violated.
+(a) PropMC: every call answering 'entailed' - every tuple of the returned box satisfies the relation.
+(b) EngineMC: every reachable search state (all variable orders, 4 value heuristics, both consistency algorithms):
+    a constraint whose flag is cleared at the current level is satisfied by every tuple of the current box; after each
+    backtrack the flag row equals the one saved at the push (reference frame stack); solutions = brute force."""
 import time
+from collections import Counter
 
-from mc import propmc
-from mc.runner import finish
+from mc import contracts as K, enginemc as E, propmc, solvecheck as SC, universe as U
+from mc.runner import Acc, finish, pmap, chunks
 
 PROP = "C07"
+ENTAILING = {"affine_geq", "affine_leq", "count_eq", "element_iv", "element_lic", "element_liv", "exactly_eq", "exactly_true",
+             "lexicographic_leq", "max_leq", "min_geq", "relation"}
+HEUR = ("min", "max", "split_low", "mid")
+
+
+class Mon(E.Monitor):
+    def after_propagate(self, eng, acc, before, status):
+        if status == 0:
+            return
+        flags = eng.flags()
+        for k, f in enumerate(flags):
+            if not f:
+                acc.c["flag_cleared_checks"] += 1
+                ok, x = eng.constraint_all_true(k)
+                if not ok:
+                    typ = eng.cons[k][0]
+                    acc.violation(f"engine:{typ}:disabled-but-violable",
+                                  {"spec": SC.short(eng.spec), "domains": eng.domains(), "constraint": k, "violating_tuple": list(x)},
+                                  "a constraint is disabled at the current level although a tuple of the current box violates it")
+
+    def after_branch(self, eng, acc, before, d, h, events):
+        old_top = before[0]
+        flags_before = [bool(x) for x in before[2][old_top]]
+        new_top = int(eng.top[0])
+        for level in range(old_top, new_top):
+            eng.ref.append((level, flags_before))
+        # the branch taken starts with the same flag row
+        if eng.flags() != flags_before:
+            acc.violation("engine:branch-changes-flag-row", {"spec": SC.short(eng.spec), "d": d, "h": h})
+
+    def after_backtrack(self, eng, acc, before, ok):
+        if not ok:
+            if eng.ref:
+                acc.violation("engine:backtrack-fails-with-pending-alternatives", {"spec": SC.short(eng.spec)})
+            return
+        if not eng.ref:
+            acc.violation("engine:backtrack-succeeds-without-alternative", {"spec": SC.short(eng.spec)})
+            return
+        level, flags = eng.ref.pop()
+        acc.c["backtracks_checked"] += 1
+        if int(eng.top[0]) != level or eng.flags() != flags:
+            acc.violation("engine:backtrack-flag-row-not-restored",
+                          {"spec": SC.short(eng.spec), "level": level, "expected_flags": flags, "flags": eng.flags(), "top": int(eng.top[0])},
+                          "after backtracking the set of disabled constraints is not the one saved for the alternative")
+        if flags != [True] * len(flags):
+            acc.c["nt_backtracks_reenabling"] += 1
+
+
+LIMIT = {"quick": 81, "thorough": 300}
+
+
+def eligible(spec, tier="thorough"):
+    if len(spec["doms"]) > (5 if tier == "quick" else 6):
+        return False  # all variable orders: the state space is factorial in the number of decision domains
+    return any(c[0] in ENTAILING for c in spec["cons"]) and U.n_assignments(spec) <= LIMIT[tier]
+
+
+def check_spec(acc, spec, tier):
+    ref = tuple(sorted(U.brute(spec)))
+    for cons, h in [(c, h) for c in ("bc", "shaving") for h in HEUR]:
+        eng = E.Engine(spec, cons)
+        root, ctr = E.explore(eng, acc, Mon(), heuristics=(h,), max_states=100000)
+        acc.c["states"] += ctr["states"]
+        acc.c["transitions"] += ctr["transitions"]
+        acc.c["explorations"] += 1
+        acc.mx("max_stack_level", ctr["maxdepth"])
+        if ctr["capped"]:
+            acc.caps.append(f"state cap hit on {spec['tag']}")
+            continue
+        if root != ref:
+            acc.violation(f"engine:{SC.con_types(spec)}:solutions-differ-from-brute-force",
+                          {"spec": SC.short(spec), "cons": cons, "heuristic": h, "yielded": len(root), "expected": len(ref)},
+                          "disabling / re-enabling constraints admitted or lost a solution")
+        if not acc.samples and ctr["states"] > 10:
+            acc.sample({"spec": SC.short(spec), "cons": cons, "states": ctr["states"], "transitions": ctr["transitions"],
+                        "solutions": len(root)}, cap=1)
+
+
+def unit(u):
+    tier, specs = u
+    acc = Acc()
+    for spec in specs:
+        acc.c["problems"] += 1
+        check_spec(acc, spec, tier)
+    return acc
 
 
 def run(tier, seed):
     t0 = time.time()
-    acc = propmc.run(PROP, tier, seed)
-    calls = acc.c["calls"]
+    acc = propmc.run(PROP, tier, seed, types=sorted(ENTAILING))
+    fams = ("F1", "F2", "F3", "F4")
+    eng, nspecs = SC.run_units(unit, tier, seed, fams, chunk=20, filt=lambda s: eligible(s, tier))
+    acc.merge(eng)
     cov = {
-        "states": calls,
-        "transitions": calls,
-        "traces_validated_against_impl": calls,
-        "evaluations": calls,
-        "distinct_nontrivial": acc.c["nt_any"],
-        "rule": "every (type, arity, params, box) of the contract table (DESIGN 2.7) is one state; one real call each; "
-                "non-trivial = distinct input on which the call pruned a bound, failed, or answered 'entailed'",
-        "exhaustive": True,
-        "instances": acc.c["instances"],
-        "bounds": f"tier={tier}: arity<=3-4, 3-5 values per variable, all parameter vectors of the table, all boxes",
+        "states": acc.c["calls"] + acc.c["states"],
+        "transitions": acc.c["calls"] + acc.c["transitions"],
+        "traces_validated_against_impl": acc.c["calls"] + acc.c["explorations"],
+        "evaluations": acc.c["nt_entailed_answers"] + acc.c["flag_cleared_checks"] + acc.c["backtracks_checked"],
+        "distinct_nontrivial": acc.c["nt_entailed_answers"] + acc.c["nt_backtracks_reenabling"],
+        "rule": "(a) every (type, arity, params, box) of the 12 types that can answer 'entailed': one real call; every 'entailed' "
+                "answer is checked against the truth table of the returned box. (b) explicit-state search over the real engine "
+                "(all variable orders, for each of 4 value heuristics and {BC, shaving}) on every problem of U containing such a constraint: "
+                "in every state each disabled constraint is checked by brute force on the current box, each backtrack against "
+                "the reference frame stack; non-trivial = 'entailed' answer / backtrack that re-enables a constraint",
+        "single_calls": acc.c["calls"], "engine_states": acc.c["states"], "engine_transitions": acc.c["transitions"],
+        "problems": nspecs, "exhaustive": True,
+        "bounds": f"tier={tier}: contract table (12 types); problems of U with <= {LIMIT[tier]} assignments; one exploration per value heuristic",
     }
     return finish(PROP, tier, seed, "model_checking", acc, cov,
-                  ["relation predicates of mc/contracts.py (written from the documentation)",
-                   "interpreted mode executes the same Python source numba compiles (bound to compiled mode by C15)"],
-                  t0, vacuity={"pruned_types": 15, "failed_types": 15})
+                  ["relation predicates of mc/contracts.py", "state merging by the canonical form of DESIGN 2.4"],
+                  t0, vacuity={"nt_entailed_answers": 10000, "nt_backtracks_reenabling": 100, "entailing_types": 12})
 
 
 def replay(entry):
     rc = 0
     for w in entry["witnesses"]:
         for _ in range(2):
-            acc = propmc.replay_witness(PROP, w)
-            print("replay:", w, "->", {k: v["count"] for k, v in acc.viol.items()} or "no violation")
-            if acc.viol:
-                rc = 1
+            acc = Acc()
+            if "type" in w:
+                acc = propmc.replay_witness(PROP, w)
+            else:
+                check_spec(acc, w["spec"], "quick")
+            print("replay:", w, "->", list(acc.viol) or "no violation")
+            rc = rc or (1 if acc.viol else 0)
     return rc
